@@ -17,7 +17,7 @@
  *     canary: 0 = bytes around the arena untouched, 1 = modified
  * ops: get set init nullget nullset nullinit badget badset nullout payload
  * path: generic dedicated legacy current
- * place: E (arena end flush against an inaccessible page), S (arena start at page start + off,
+ * place: H (exact-size malloc'ed object, <off> spare bytes in front), E (arena end flush against an inaccessible page), S (arena start at page start + off,
  *        inaccessible page before), R (as E, but the arena's pages are read-only during the call)
  */
 #define _GNU_SOURCE
@@ -192,7 +192,7 @@ static void do_op(Region* reg, uint8_t* arena, size_t alen, int readonly, char**
     if (r.nobind) strcpy(status, "nobind");
     printf("R %s ", status); put64(r.ret); printf(" %ld ", r.rc); put64(r.out); putchar(' ');
     puthex(arena, alen);
-    int bad = check_canary(reg, arena, alen);
+    int bad = reg ? check_canary(reg, arena, alen) : 0;
     printf(" %d\n", bad);
     if (bad) fill_canary(reg);
 }
@@ -203,9 +203,12 @@ static void uncanary(Region* reg, uint8_t* arena, size_t alen)
 
 /* ---- helpers for exec_ext.c ---- */
 static Region* cur_reg; static int cur_ro;
+static long src_shift;      /* <off> = offset + 100 * shift: source objects (payloads, paths, values) end <shift> bytes before the guard
+                               page, so that the alignment of the source can be chosen independently of its length (C15) */
 uint8_t* ext_place(char place, long off, const uint8_t* bytes, size_t n)
 {
     uint8_t* a;
+    src_shift = off / 100; off %= 100;
     if (place == 'S') { cur_reg = &regS; a = regS.data + off; }
     else { cur_reg = &regE; a = regE.data + DATA_PAGES * PAGE - n; }
     cur_ro = (place == 'R');
@@ -214,7 +217,7 @@ uint8_t* ext_place(char place, long off, const uint8_t* bytes, size_t n)
 }
 uint8_t* ext_source(const uint8_t* bytes, size_t n)   /* read-only source object, end flush against a guard page */
 {
-    uint8_t* a = regP.data + DATA_PAGES * PAGE - n;
+    uint8_t* a = regP.data + DATA_PAGES * PAGE - n - src_shift;
     mprotect(regP.data, DATA_PAGES * PAGE, PROT_READ | PROT_WRITE);
     memcpy(a, bytes, n);
     mprotect(regP.data, DATA_PAGES * PAGE, PROT_READ);
@@ -272,6 +275,15 @@ int main(void)
             size_t alen = unhex(tok[10], buf, sizeof buf);
             char place = tok[8][0]; long off = atol(tok[9]);
             Region* reg; uint8_t* arena;
+            if (place == 'H') {      /* exact-size heap object, <off> bytes in front: for builds with AddressSanitizer, whose red zones
+                                        see an access one byte beyond the object at any alignment (a guard page only sees page crossings) */
+                uint8_t* obj = malloc((size_t)off + alen);
+                memcpy(obj + off, buf, alen);
+                fprintf(stderr, "##CMD %s %s %s %s\n", tok[1], tok[2], tok[3], tok[4]);
+                do_op(NULL, obj + off, alen, 0, &tok[1]);
+                free(obj);
+                continue;
+            }
             if (place == 'S') { reg = &regS; arena = reg->data + off; }
             else { reg = &regE; arena = reg->data + DATA_PAGES * PAGE - alen; }
             memcpy(arena, buf, alen);
